@@ -654,6 +654,11 @@ func (c *Conn) reconnect(ctx context.Context) error {
 	}
 	c.wireConn = res
 	if !c.state.CompareAndSwap(connStatusReconnecting, connStatusConnected) {
+		if c.state.Is(connStatusClosed) {
+			// Close was called while redialling: give up the fresh connection instead of panicking
+			res.Close()
+			return errors.ErrConnectionClosed
+		}
 		panic(errors.Errorf("unexpected error: expected reconnecting but %v", c.state.current))
 	}
 	return nil
